@@ -286,49 +286,47 @@ def core_rules(rep):
             rep.ob("R3.1", f"{t.fn.name}: the table dispatches on its own `ty` and on resolve.types[id].kind",
                    s_out == "$ty" and re.fullmatch(r"&?(self\.resolve|\$resolve)\.types\[\*?\w+\]\.kind", s_in) is not None,
                    f"scrutinees `{s_out}` / `{s_in}`", t.fn.loc(t.outer))
-        cN, cD, cI = classify_N(rN), classify_D(V), classify_I(V)
         for key in domain:
             rep.guard("R3.1", f"matrix row {key}", lambda key=key: row(key))
 
     def row(key):
         cN, cD, cI = classify_N(rN), classify_D(V), classify_I(V)
-        if True:
-            n = tN.per_mode(key, cN)
-            ncls = {n[m][0] for m in MODES}
-            narm = n["Lists"][1]
-            exp = EXPECT_N.get(key)
-            if exp is None:
-                rep.ob("R3.1", f"N({key}) has a class assigned by the property", False,
-                       "kind unknown to rules/C03.py: decide whether it owns heap data and extend EXPECT_N", wp_path)
-                return
-            n1 = next(iter(ncls)) if len(ncls) == 1 else "mixed " + "/".join(sorted(ncls))
-            rep.ob("R3.1", f"N({key}) is {' or '.join(sorted(exp))}", n1 in exp,
-                   f"needs_deallocate classifies {key} as `{n1}`; the property only counts string/list/map buffers (and, in "
-                   f"ListsAndOwn mode, own/future/stream handles)", nd.loc(narm.node if narm else None))
-            for nm, t, cl, acc in (("I", tI, cI, ACCEPT_I), ("D", tD, cD, ACCEPT_D)):
-                w = t.per_mode(key, cl)
-                bad = []
-                for m in MODES:
-                    want = acc.get(n_in_mode(n[m][0], m))
-                    if want is None or w[m][0] not in want:
-                        bad.append(f"{m}: N={n[m][0]} but {t.fn.name}={w[m][0]}")
-                warm = w["Lists"][1] or w["ListsAndOwn"][1]
-                rep.ob("R3.1", f"{nm}({key}) consistent with N({key})", not bad,
-                       "; ".join(bad) or f"N={n1}, {t.fn.name}: " + "/".join(w[m][0] for m in MODES),
-                       t.fn.loc(warm.node if warm else None))
-            # the free instruction is the one of this kind
-            if key in FREE_OF:
-                a = tD.per_mode(key, cD)["Lists"][1]
-                made = [x for x, _ in synq.constructed(a.body, V) if x.startswith("GuestDeallocate")] if a else []
-                rep.ob("R3.1", f"D({key}) frees with {FREE_OF[key]}", made == [FREE_OF[key]], f"arm constructs {made}",
-                       fD.loc(a.node if a else None))
-            # every child is visited by all three
-            if key in CHILDREN:
-                for nm, t, cl in (("N", tN, cN), ("I", tI, cI), ("D", tD, cD)):
-                    a = t.per_mode(key, cl)["Lists"][1]
-                    got = members_of(a.body, set(arm_binds(a))) if a else set()
-                    rep.ob("R3.1", f"{nm}({key}) visits every child ({', '.join(sorted(CHILDREN[key]))})",
-                           CHILDREN[key] <= got, f"members read from the payload: {sorted(got)}", t.fn.loc(a.node if a else None))
+        n = tN.per_mode(key, cN)
+        ncls = {n[m][0] for m in MODES}
+        narm = n["Lists"][1]
+        exp = EXPECT_N.get(key)
+        if exp is None:
+            rep.ob("R3.1", f"N({key}) has a class assigned by the property", False,
+                   "kind unknown to rules/C03.py: decide whether it owns heap data and extend EXPECT_N", wp_path)
+            return
+        n1 = next(iter(ncls)) if len(ncls) == 1 else "mixed " + "/".join(sorted(ncls))
+        rep.ob("R3.1", f"N({key}) is {' or '.join(sorted(exp))}", n1 in exp,
+               f"needs_deallocate classifies {key} as `{n1}`; the property only counts string/list/map buffers (and, in "
+               f"ListsAndOwn mode, own/future/stream handles)", nd.loc(narm.node if narm else None))
+        for nm, t, cl, acc in (("I", tI, cI, ACCEPT_I), ("D", tD, cD, ACCEPT_D)):
+            w = t.per_mode(key, cl)
+            bad = []
+            for m in MODES:
+                want = acc.get(n_in_mode(n[m][0], m))
+                if want is None or w[m][0] not in want:
+                    bad.append(f"{m}: N={n[m][0]} but {t.fn.name}={w[m][0]}")
+            warm = w["Lists"][1] or w["ListsAndOwn"][1]
+            rep.ob("R3.1", f"{nm}({key}) consistent with N({key})", not bad,
+                   "; ".join(bad) or f"N={n1}, {t.fn.name}: " + "/".join(w[m][0] for m in MODES),
+                   t.fn.loc(warm.node if warm else None))
+        # the free instruction is the one of this kind
+        if key in FREE_OF:
+            a = tD.per_mode(key, cD)["Lists"][1]
+            made = [x for x, _ in synq.constructed(a.body, V) if x.startswith("GuestDeallocate")] if a else []
+            rep.ob("R3.1", f"D({key}) frees with {FREE_OF[key]}", made == [FREE_OF[key]], f"arm constructs {made}",
+                   fD.loc(a.node if a else None))
+        # every child is visited by all three
+        if key in CHILDREN:
+            for nm, t, cl in (("N", tN, cN), ("I", tI, cI), ("D", tD, cD)):
+                a = t.per_mode(key, cl)["Lists"][1]
+                got = members_of(a.body, set(arm_binds(a))) if a else set()
+                rep.ob("R3.1", f"{nm}({key}) visits every child ({', '.join(sorted(CHILDREN[key]))})",
+                       CHILDREN[key] <= got, f"members read from the payload: {sorted(got)}", t.fn.loc(a.node if a else None))
     rep.guard("R3.1", "consistency matrix", r31)
 
     core = mir.load("ws", "wit_bindgen_core", "rlib")
@@ -437,8 +435,11 @@ def core_rules(rep):
     rep.guard("R3.2", "ownership mode", r32)
 
     # ---------------------------------------------------------------- R3.5 walker shapes
-    def r35():
-        cD, cI = classify_D(V), classify_I(V)
+    # ---------------------------------------------------------------- (R3.5 parts, each fails closed on its own)
+    cD, cI = classify_D(V), classify_I(V)
+
+
+    def s_early_return():
         # deallocate_indirect returns early exactly when its own (ty, what) own nothing
         mI = core.method("Generator", "deallocate_indirect")
         sw = bool_switches_on_call(mI, "abi::needs_deallocate")
@@ -459,6 +460,8 @@ def core_rules(rep):
             det = f"ty from {oty.get('kind')}#{oty.get('n')}, mode from {owh.get('kind')}#{owh.get('n')}, " \
                   f"{len([b for b in others if b not in region])} call(s) outside the needs_deallocate=true region"
         rep.ob("R3.5", "deallocate_indirect does nothing iff needs_deallocate(ty, what) is false for its own arguments", ok, det, mI.loc())
+
+    def s_mem_to_flat():
         # memory -> flat: pointer + length are loaded, then the pair goes to `deallocate` of the same type
         for key in FREE_OF:
             a = tI.per_mode(key, cI)["Lists"][1]
@@ -467,6 +470,8 @@ def core_rules(rep):
             rep.ob("R3.5", f"I({key}) loads pointer then length and hands them to deallocate(ty, what)",
                    made == ["PointerLoad", "LengthLoad"] and dc == ["$ty, $what"] and self_calls(a.body)[-1] == "deallocate",
                    f"constructs {made}, deallocate({dc})", fI.loc(a.node))
+
+    def s_elements_first():
         # list / map: the elements are released inside the block, before the buffer itself
         for key, kids in (("TypeDefKind::List", 1), ("TypeDefKind::Map", 2)):
             a = tD.per_mode(key, cD)["Lists"][1]
@@ -482,6 +487,8 @@ def core_rules(rep):
             rep.ob("R3.5", f"D({key}): element block (IterBasePointer, children) is closed before the one {FREE_OF[key]} of the same types",
                    calls_c == want and [n for n, _ in made] == ["IterBasePointer", FREE_OF[key]] and kids_ok and fields_ok,
                    f"self calls {calls_c}, constructs {[n for n, _ in made]}, children {rec}", fD.loc(a.node))
+
+    def s_variant_blocks():
         # variants: one block per case
         for t, f_, cl, roles, nm in ((tD, fD, cD, rD, "D"), (tI, fI, cI, rI, "I")):
             for key, want in (("TypeDefKind::Variant", "$b0.cases.len()"), ("TypeDefKind::Option", "2"), ("TypeDefKind::Result", "2")):
@@ -500,6 +507,8 @@ def core_rules(rep):
                 and not [c for c in self_calls(fv.body) if c in ("push_block", "finish_block")][2:]
         rep.ob("R3.5", "deallocate_indirect_variant opens and closes exactly one block per case", ok,
                f"{[self_calls(l['body']) for l in loops]}", fv.loc())
+
+    def s_handle_drop():
         # handles: the handle is lifted / read, then dropped
         for t, f_, cl, roles, nm, first, args in ((tD, fD, cD, rD, "D", "lift", "$ty"), (tI, fI, cI, rI, "I", "read_from_memory", "$ty, $addr, $offset")):
             for key in ("TypeDefKind::Handle(Handle::Own)", "TypeDefKind::Future", "TypeDefKind::Stream"):
@@ -511,6 +520,8 @@ def core_rules(rep):
                 dh = [field_expr(node, "ty", roles) for n, node in synq.constructed(a.body, V) if n == "DropHandle"]
                 rep.ob("R3.5", f"{nm}({key}) [ListsAndOwn]: {first}({args}) then DropHandle of the same type",
                        sc == [first, "emit"] and got == [args] and dh == ["$ty"], f"{sc} {got} {dh}", f_.loc(a.node))
+
+    def s_in_types():
         # deallocate_in_types: memory walk under `indirect`, flat walk otherwise
         mT = core.method("Generator", "deallocate_in_types")
         ind = [i for i in range(1, mT.argc + 1) if mT.locals[i] == "bool"]
@@ -520,6 +531,8 @@ def core_rules(rep):
                                                           for b, vals, o in mT.guard_edges(cls[0].bb))
             rep.ob("R3.5", f"deallocate_in_types: {callee.split('::')[-1]} runs on the indirect={'true' if edge == ['else'] else 'false'} edge",
                    ok, f"{len(cls)} call(s)", mT.loc(cls[0].bb) if cls else mT.loc())
+
+    def s_post_return_shape():
         # post_return: argument 0 is the return pointer, the walked types are the result, nothing is returned
         fp = synq.find_fn(ABI, "post_return", self_ty="Generator")
         rp = synq.param_roles(fp)
@@ -530,6 +543,8 @@ def core_rules(rep):
         rep.ob("R3.5", "post_return: GetArg 0, walks func.result, Return amt 0, in this order",
                [n for n, _ in made] == ["GetArg", "Return"] and ga == ["0"] and rt == ["0"] and ext == ["$func.result"] and
                self_calls(fp.body) == ["emit", "deallocate_in_types", "emit"], f"{[n for n, _ in made]} {ga} {rt} {ext} {self_calls(fp.body)}", fp.loc())
+
+    def s_predicates():
         # the two public predicates
         for nm, member in (("guest_export_needs_post_return", "result"), ("guest_export_params_have_allocations", "params")):
             g = synq.find_fn(ABI, nm)
@@ -544,7 +559,9 @@ def core_rules(rep):
                    mem == {member} and not neg and len(calls) == 1 and dflt in ([], ["false"]) and
                    not synq.method_calls(g.body, ("is_none_or", "all", "unwrap_or_default")),
                    f"reads func.{sorted(mem)}, {len(neg)} negation(s), default {dflt}", g.loc())
-    rep.guard("R3.5", "walker shapes", r35)
+
+    for part in (s_early_return, s_mem_to_flat, s_elements_first, s_variant_blocks, s_handle_drop, s_in_types, s_post_return_shape, s_predicates):
+        rep.guard("R3.5", "walker shapes: " + part.__name__[2:], part)
     return V
 
 
@@ -616,8 +633,14 @@ def guard_sig(fn, chain):
     bools = {p["pat"]["name"] for p in fn.node["sig"]["params"]
              if not p.get("self") and p["pat"].get("k") == "p_ident" and p["ty"].replace(" ", "") == "bool"}
     under, sig = False, []
+    lets = {nm: init for nm, init, st in synq.bindings(fn.body) if init is not None and st["pat"].get("k") == "p_ident"}
     for ifn, br in chain:
-        cj = conjuncts(ifn["cond"])
+        cj = []
+        for c in conjuncts(ifn["cond"]):    # a condition computed into a local beforehand is looked through
+            if c.get("k") == "path" and c["path"] in lets and c["path"] not in bools:
+                cj += conjuncts(lets[c["path"]])
+            else:
+                cj.append(c)
         if br == "then" and any(is_pred(c, roles) for c in cj):
             under = True
             sig.append("P(func)" + "".join(" && " + x for x in sorted(canon(c, roles) for c in cj if not is_pred(c, roles))))
@@ -689,6 +712,47 @@ def backend_r33(rep, be, cfg):
         if ref is not None and under:
             rep.ob("R3.3", f"{be}: {fn.name}: {desc} is guarded like the abi::post_return call", sig == ref[1],
                    f"site: {sig}; abi::post_return: {ref[1]}", fn.loc(n))
+
+
+def rust_modes(rep):
+    """R3.2 in the Rust backend: which cleanup mode ends up in which generated function."""
+    rel = "crates/rust/src/interface.rs"
+    c = mir.load("ws", "wit_bindgen_rust", "rlib")
+    WR = {"deallocate_lists": "abi::deallocate_lists_in_types", "deallocate_lists_and_own": "abi::deallocate_lists_and_own_in_types"}
+    for w, callee in WR.items():
+        f = c.method("InterfaceGenerator", w)
+        rep.saw(f)
+        got = sorted({cl.callee.split("::")[-1] for cl in f.calls(list(WR.values()))})
+        rep.ob("R3.2", f"rust: InterfaceGenerator::{w} forwards to {callee}", got == [callee.split("::")[-1]], f"calls {got}", f.loc())
+    nsite = 0
+    for fn in synq.all_fns(rel):
+        if fn.body is None:
+            continue
+        src = {}   # local name -> wrapper it was computed with
+        for nm, init, st in synq.bindings(fn.body):
+            if init is not None and init.get("k") == "mcall" and init["method"] in WR and render(init["recv"]) == "self":
+                src[nm] = init["method"]
+        for n in synq.walk(fn.body):
+            if n.get("k") == "assign" and n["l"].get("k") == "path" and n["r"].get("k") == "mcall" and n["r"]["method"] in WR \
+                    and render(n["r"]["recv"]) == "self":
+                src[n["l"]["path"]] = n["r"]["method"]
+        if not src:
+            continue
+        fl = [fm for fm in synq.fmts(fn.body) if fm.template is not None]
+        for i, fm in enumerate(fl):
+            mm = re.search(r"fn (\w*dealloc_lists\w*)\(", fm.template)
+            if not mm:
+                continue
+            holes = [(key, e) for kind, key, e, off in fm.hole_exprs() if off > mm.end()]
+            if i + 1 < len(fl):
+                holes += [(key, e) for kind, key, e, off in fl[i + 1].hole_exprs()]
+            used = [src[k] for k, e in holes if e is None and k in src] + \
+                   [src[e["path"]] for k, e in holes if e is not None and e.get("k") == "path" and e["path"] in src]
+            want = "deallocate_lists_and_own" if "_and_own" in mm.group(1) else "deallocate_lists"
+            nsite += 1
+            rep.ob("R3.2", f"rust: generated `{mm.group(1)}` gets the body computed by {want}", used[:1] == [want],
+                   f"body comes from {used[:1]}", fn.loc(fm.node))
+    rep.floor("R3.2", "rust: generated dealloc_lists functions", nsite, 3)
 
 
 # ---------------------------------------------------------------- R3.4 / R3.6 templates of the Bindgen::emit arms
@@ -896,3 +960,4 @@ def run(rep, tier):
         cfg = BACKENDS[be]
         rep.guard("R3.3", f"backend {be}: post-return generation", lambda be=be, cfg=cfg: backend_r33(rep, be, cfg))
         rep.guard("R3.4", f"backend {be}: allocation / free templates", lambda be=be, cfg=cfg: backend_r34(rep, be, cfg))
+    rep.guard("R3.2", "backend rust: cleanup mode of the generated functions", lambda: rust_modes(rep))
